@@ -148,6 +148,13 @@ def parseEntries (cx : TreeCtx) (s : String) : Option (List (Entry Float)) :=
         if rest.isEmpty then some ⟨r, c, e⟩ else none
     | _ => none
 
+/-- `TOKENS@TOKENS@…` : the operand list of a Broadcast / Reduction / Diagonal operator. -/
+def parseOps (cx : TreeCtx) (s : String) : Option (List (Op Float)) :=
+  if s = "-" then some [] else
+  (s.splitOn "@").mapM fun t => do
+    let (e, rest) ← parseTree cx (t.splitOn ",")
+    if rest.isEmpty then some e else none
+
 def parseVecs (s : String) : Option (Array (Array Float)) :=
   if s = "-" then some #[] else ((s.splitOn ";").mapM fun t => (parseList parseBits t).map (·.toArray)).map (·.toArray)
 
@@ -176,6 +183,8 @@ def doPso (l : Line) : Option String := do
     | 2 => vecOf g | 3 => vecOf sig | 4 => vecOf lo | 5 => vecOf up | _ => fun _ => nanF
   let cx : TreeCtx := { n := n, fns := floatFns n 1 1.0 2.0, par := par, data := data }
   let entries ← l.get? "entries" >>= parseEntries cx
+  -- round 4: kind=bcastw|redw|diagw get the OPERAND list; blocks and wrapping come from the model
+  let ops ← parseOps cx ((l.get? "ops").getD "-")
   let s0 : St Float := {
     mem := fun b => if b < nc then vecOf (xs.getD b #[]) else
                     if b < nc + m then vecOf (ys.getD (b - nc) #[]) else fun _ => nanF,
@@ -192,6 +201,34 @@ def doPso (l : Line) : Option String := do
   | "proj", "ip" => finish (compProjI idx x nc s0) (fun _ => nc) 1
   | "projadj", "oop" => finish (compProjAdjO m idx 0 s0) (fun i => s0.next + i) m
   | "projadj", "ip" => finish (compProjAdjI m idx 0 yIP s0) yIP m
+  | "bcastw", "oop" =>
+      match broadcastO jk ops 0 s0 with
+      | .err e _ => some (showErr e)
+      | .ok _ s => finish s (fun i => s0.next + i) m
+  | "bcastw", "ip" =>
+      match broadcastI jk ops 0 yIP s0 with
+      | .err e _ => some (showErr e)
+      | .ok _ s => finish s yIP m
+  | "redw", "oop" =>
+      match reductionO jk ops x s0 with
+      | .err e _ => some (showErr e)
+      | .ok r s => (finish s (fun _ => r) 1).map (· ++ s!" ret={r}")
+  | "redw", "ip" =>
+      match reductionI jk ops x nc s0 with
+      | .err e _ => some (showErr e)
+      | .ok r s => (finish s (fun _ => r) 1).map (· ++ s!" ret={r}")
+  | "diagw", "oop" =>
+      match diagonalO jk ops x s0 with
+      | .err e _ => some (showErr e)
+      | .ok _ s => finish s (fun i => s0.next + i) m
+  | "diagw", "ip" =>
+      match diagonalI jk ops x yIP s0 with
+      | .err e _ => some (showErr e)
+      | .ok _ s => finish s yIP m
+  | "diagw", "alias" =>
+      match diagonalI jk ops x x s0 with
+      | .err e _ => some (showErr e)
+      | .ok _ s => finish s x m
   | _, "oop" =>
       match psoO jk m entries x s0 with
       | .err e _ => some (showErr e)
